@@ -14,6 +14,8 @@
 EXTENDS Integers, Sequences, FiniteSets
 
 CONSTANTS StopAtGenesis,       \* TRUE: the repaired client; FALSE: as originally coded
+          CursorFromAccepted,  \* TRUE: the next request height is derived from the last ACCEPTED block (the code);
+                               \* FALSE: the cursor moves by the length of every response, accepted or not
           StrictForward        \* TRUE: forward completion needs newTarget.ts - oldest.ts >  window (the code);
                                \* FALSE: >= (declares completion one timestamp too early)
 
@@ -67,6 +69,8 @@ Responses(h) ==
   \cup {[i \in 1..Len(hs) |-> hs[Len(hs) + 1 - i]]}                                 \* reordered
   \cup {IF Len(hs) >= 2 THEN [hs EXCEPT ![1] = hs[2], ![2] = hs[1]] ELSE hs}        \* two swapped
   \cup {Honest(h - 1), Honest(h + 1)}                                               \* answer to another height
+  \cup {SubSeq(hs, 1, j - 1) \o SubSeq(hs, j + 1, Len(hs)) : j \in 1..Len(hs)}     \* good prefix, then a block of another height
+  \cup {SubSeq(hs, 1, j) \o <<hs[j]>> \o SubSeq(hs, j + 1, Len(hs)) : j \in 1..Len(hs)}  \* a block repeated
 
 (* ---- client: expected-parent chaining over one response ---- *)
 Finishes(b) == b.ts < MinTS \/ (StopAtGenesis /\ b.h = 0)
@@ -101,11 +105,14 @@ RoundStart ==
 RoundBody(resp) ==
   /\ LET acc == Accept(resp, last - 1) IN        \* expected parent id of a true block h is h - 1
      /\ delivered' = delivered \o acc
-     /\ IF acc = <<>> THEN UNCHANGED <<last, reqH, cdone>>
+     /\ IF acc = <<>> THEN /\ UNCHANGED <<last, cdone>>
+                            /\ reqH' = IF CursorFromAccepted THEN reqH ELSE reqH - Len(resp)
         ELSE LET b == acc[Len(acc)] IN
              /\ last' = b.h
              /\ cdone' = Finishes(b)
-             /\ reqH' = IF Finishes(b) THEN reqH ELSE b.h - 1        \* 0 - 1 underflows (modelled as -1)
+             /\ reqH' = IF Finishes(b) THEN reqH
+                        ELSE IF CursorFromAccepted THEN b.h - 1     \* 0 - 1 underflows (modelled as -1)
+                        ELSE reqH - Len(resp)
   /\ UNCHANGED <<conf, tgt, ts, oldest, saved, sdone>>
 Round(resp) == ~cdone /\ inflight /\ inflight' = FALSE /\ RoundBody(resp)
 
